@@ -707,6 +707,20 @@ Proof.
     + intros I. rewrite forallb_forall in IC2. specialize (IC2 _ I). discriminate.
 Qed.
 
+(* method-table names identify a method by (declaring package, name) for unexported names *)
+Lemma table_name_method_id n p : wf_path p = true -> table_name n (Some p) = method_id n (Some p).
+Proof.
+  intros W. destruct (wf_path_chars _ W) as (_ & NE & _ & PO). unfold table_name, method_id, full_name.
+  rewrite PO. destruct (exported n); [reflexivity|]. destruct p; [congruence|reflexivity].
+Qed.
+Lemma table_name_inj n p n2 p2 : wf_ident n = true -> wf_path p = true -> wf_ident n2 = true -> wf_path p2 = true ->
+  (table_name n (Some p) = table_name n2 (Some p2) <-> same_id n (Some p) n2 (Some p2) = true).
+Proof.
+  intros Wn Wp Wn2 Wp2. rewrite !table_name_method_id by assumption. split.
+  - now apply method_id_inj.
+  - intros E. apply same_id_name in E as [-> E]. now apply method_id_same.
+Qed.
+
 Lemma text_heads_differ :
   (forall ps rs v fs, func_text ps rs v <> struct_text fs) /\
   (forall ps rs v ms, func_text ps rs v <> iface_text ms) /\
